@@ -1,6 +1,8 @@
 (** C03_log at the block level: J_log = diag(1/F) J diag(x), cell by cell, for total
-    environments, whenever every rule of the nonterminal has an invertible (finite, non-zero)
-    sum-product at the cell's external assignment and so has their total. *)
+    environments.  For the code as it is now ([J_log_contribs]: nan_to_num per contribution) the
+    only guard left is finiteness: every rule value is zero or invertible.  For the code before
+    b84d904 ([J_log_old_contribs] / [J_log_old_val]: one nan poisons the block) every rule value
+    had to be invertible. *)
 From Coq Require Import List Arith Bool PeanoNat Lia Ring Ring_theory.
 Import ListNotations.
 Require Import Fggs.Model.Semiring Fggs.Model.SCC Fggs.Model.SumProduct Fggs.Model.SumProductCheck Fggs.Model.Dual.
@@ -90,30 +92,46 @@ Proof.
   - destruct (spe_total_some (node_sizes G r) (r_edges r) (r_ext r)) as (f & Ef'). congruence.
 Qed.
 
-(** C03_log: the block (n, l) of J_log at the cell (xi, yi) *)
-Theorem J_log_block comp wi n l xi yi :
-  NoDup comp -> In n comp -> In xi (all_assts (lshape G n)) -> In yi (all_assts (lshape G l)) ->
-  (forall r, In r (rules_of G n) -> ok (rule_val o G E r xi)) ->
-  ok (sumS o (rules_of G n) (fun r => rule_val o G E r xi)) ->
-  exists v,
-    J_log_val o (J_log_contribs o dv G comp e wi) n l (xi ++ yi) = Some v
-    /\ mul o v (sumS o (rules_of G n) (fun r => rule_val o G E r xi))
-       = mul o (J_val o (J_contribs o G comp e wi) n l (xi ++ yi)) (E l yi).
+(** ** the common skeleton: any relation between the list of J_log contribution values and the
+    list of J contribution values that holds for the empty lists, is preserved by [++] and holds
+    for every single (rule, edge) pair, holds for the blocks *)
+Section Skeleton.
+Variable Rel : list (option R) -> list R -> Prop.
+Hypothesis Rel_nil : Rel [] [].
+Hypothesis Rel_app : forall g1 g2 h1 h2, Rel g1 h1 -> Rel g2 h2 -> Rel (g1 ++ g2) (h1 ++ h2).
+Lemma Rel_flat_map {A} (l : list A) (g : A -> list (option R)) (h : A -> list R) :
+  (forall a, In a l -> Rel (g a) (h a)) -> Rel (flat_map g l) (flat_map h l).
 Proof.
-  intros Hnd Hn Hxi Hyi Hok Hokt.
-  set (F := sumS o (rules_of G n) (fun r => rule_val o G E r xi)).
+  induction l as [|a l IH]; intros H; cbn [flat_map]; [apply Rel_nil|].
+  apply Rel_app; [apply H; now left|apply IH; intros b Hb; apply H; now right].
+Qed.
+
+Variables (n l : nat) (xi yi : list nat).
+Hypothesis Hxi : In xi (all_assts (lshape G n)).
+Hypothesis Hyi : In yi (all_assts (lshape G l)).
+Let F := sumS o (rules_of G n) (fun r => rule_val o G E r xi).
+Hypothesis Hleaf : forall r s, In r (rules_of G n) -> In s (splits (r_edges r)) -> fst (snd (fst s)) = l ->
+  Rel [omul o (dv (full_prod o G E r s (xi ++ yi))
+                  (sumS o (all_assts (lshape G l)) (fun yi' => full_prod o G E r s (xi ++ yi'))))
+              (dv (rule_val o G E r xi) F)]
+      [loo_prod o G E r s (xi ++ yi)].
+
+Lemma J_log_skeleton comp wi :
+  Rel (map (fun c => snd c (xi ++ yi))
+           (filter (fun c : nat * nat * (list nat -> option R) => Nat.eqb (fst (fst c)) n && Nat.eqb (snd (fst c)) l)
+                   (J_log_old_contribs o dv G comp e wi)))
+      (map (fun c => snd c (xi ++ yi))
+           (filter (fun c : nat * nat * (list nat -> R) => Nat.eqb (fst (fst c)) n && Nat.eqb (snd (fst c)) l)
+                   (J_contribs o G comp e wi))).
+Proof.
   set (key := fun c : nat * nat * (list nat -> option R) => Nat.eqb (fst (fst c)) n && Nat.eqb (snd (fst c)) l).
   set (key' := fun c : nat * nat * (list nat -> R) => Nat.eqb (fst (fst c)) n && Nat.eqb (snd (fst c)) l).
-  change (rel F (E l yi)
-              (map (fun c => snd c (xi ++ yi)) (filter key (J_log_contribs o dv G comp e wi)))
-              (map (fun c => snd c (xi ++ yi)) (filter key' (J_contribs o G comp e wi)))).
-  unfold J_log_contribs, J_contribs.
-  rewrite !filter_flat_map, !map_flat_map'. apply rel_flat_map. intros n' Hn'.
+  unfold J_log_old_contribs, J_contribs.
+  rewrite !filter_flat_map, !map_flat_map'. apply Rel_flat_map. intros n' Hn'.
   fold (taus_of (rules_of G n')).
   rewrite !filter_flat_map, !map_flat_map'.
-  (* J_log iterates over the (rule, value) pairs; with a total environment there is one per rule *)
   assert (Htaus : forall rs, (forall r, In r rs -> In r (rules_of G n')) ->
-            rel F (E l yi)
+            Rel
               (flat_map (fun rf : rule * (list nat -> R) =>
                  map (fun c : nat * nat * (list nat -> option R) => snd c (xi ++ yi))
                    (filter key
@@ -136,28 +154,26 @@ Proof.
                               | Some f => [(n', fst (snd (fst s)), f)]
                               | None => []
                               end) (splits (r_edges r))))) rs)).
-  { induction rs as [|r rs IH]; intros Hsub; [apply rel_nil|].
+  { induction rs as [|r rs IH]; intros Hsub; [apply Rel_nil|].
     unfold taus_of. cbn [flat_map]. fold (taus_of rs).
     destruct (spe o (node_sizes G r) e (r_edges r) (r_ext r)) as [fr|] eqn:Efr.
     2:{ destruct (spe_total_some (node_sizes G r) (r_edges r) (r_ext r)) as (f & Ef'). congruence. }
-    cbn [app flat_map]. apply rel_app; [|apply IH; intros r' Hr'; apply Hsub; now right].
+    cbn [app flat_map]. apply Rel_app; [|apply IH; intros r' Hr'; apply Hsub; now right].
     cbn [fst snd].
     assert (Hrin : In r (rules_of G n')) by (apply Hsub; now left).
     pose proof (rules_of_wf G Hwf n' r Hrin) as Hw.
     assert (Hlhs : r_lhs r = n') by (apply in_rules_of in Hrin; tauto).
-    rewrite !filter_flat_map, !map_flat_map'. apply rel_flat_map. intros s Hs.
-    destruct (negb (mem comp (fst (snd (fst s)))) && negb wi); [apply rel_nil|].
+    rewrite !filter_flat_map, !map_flat_map'. apply Rel_flat_map. intros s Hs.
+    destruct (negb (mem comp (fst (snd (fst s)))) && negb wi); [apply Rel_nil|].
     destruct (spe o (node_sizes G r) e (r_edges r) (r_ext r ++ snd (snd (fst s)))) as [ff|] eqn:Eff.
     2:{ destruct (spe_total_some (node_sizes G r) (r_edges r) (r_ext r ++ snd (snd (fst s)))) as (f & Ef'). congruence. }
     destruct (spe o (node_sizes G r) e (fst (fst s) ++ snd s) (r_ext r ++ snd (snd (fst s)))) as [fl|] eqn:Efl.
     2:{ destruct (spe_total_some (node_sizes G r) (fst (fst s) ++ snd s) (r_ext r ++ snd (snd (fst s)))) as (f & Ef'). congruence. }
     cbn [filter]. unfold key, key'. cbn [fst snd].
-    destruct (Nat.eqb n' n) eqn:En; cbn [andb]; [|apply rel_nil].
-    destruct (Nat.eqb (fst (snd (fst s))) l) eqn:El; [|apply rel_nil].
+    destruct (Nat.eqb n' n) eqn:En; cbn [andb]; [|apply Rel_nil].
+    destruct (Nat.eqb (fst (snd (fst s))) l) eqn:El; [|apply Rel_nil].
     apply Nat.eqb_eq in En, El. clear Hlhs. subst n'. cbn [map snd].
     assert (Hlhs : r_lhs r = n) by (apply in_rules_of in Hrin; tauto).
-    apply rel_single.
-    (* the cell: first components of the index are xi *)
     assert (Hlen : length (r_ext r) = length xi).
     { destruct (wf_rule_facts G r Hw) as (_ & _ & _ & Hshape & _).
       rewrite <- Hlhs in Hxi. apply all_assts_length in Hxi. rewrite Hshape, map_length in Hxi. now symmetry. }
@@ -165,8 +181,6 @@ Proof.
     { rewrite Hlen, firstn_app, Nat.sub_diag, firstn_all. cbn [firstn]. now rewrite app_nil_r. }
     rewrite Hfirst.
     assert (Hxi' : In xi (all_assts (lshape G (r_lhs r)))) by now rewrite Hlhs.
-    assert (Hyi' : In yi (all_assts (lshape G (fst (snd (fst s)))))) by now rewrite El.
-    (* identify the closures with the named tensors *)
     assert (Hfull : forall idx, ff idx = full_prod o G E r s idx) by (intros idx; unfold full_prod; now rewrite Eff).
     assert (Hloo : forall idx, fl idx = loo_prod o G E r s idx) by (intros idx; unfold loo_prod; now rewrite Efl).
     assert (Htau : fr xi = rule_val o G E r xi).
@@ -175,10 +189,99 @@ Proof.
     assert (Htot : sumS o (taus_of (rules_of G n)) (fun rf0 => snd rf0 xi) = F).
     { unfold F. apply taus_total. intros r' Hr'. split; [now apply (rules_of_wf G Hwf n)|].
       apply in_rules_of in Hr'. destruct Hr' as [_ ->]. exact Hxi. }
-    fold (taus_of (rules_of G n)). rewrite Htot, Htau, Hfull, Hloo, <- El.
+    fold (taus_of (rules_of G n)). rewrite Htot, Htau, Hfull, Hloo, El.
     rewrite (sumS_ext o _ (fun yi0 => ff (xi ++ yi0)) (fun yi0 => full_prod o G E r s (xi ++ yi0))) by (intros; apply Hfull).
-    apply (J_log_entry o Hr G E dv ok Hdv r s xi yi F Hw Hs Hxi' Hyi'); [now apply Hok|exact Hokt]. }
-  (* the J side iterates over the rules themselves *)
+    now apply Hleaf. }
   apply (Htaus (rules_of G n') (fun r H => H)).
+Qed.
+End Skeleton.
+
+(** ** the code before b84d904: every rule value must be invertible *)
+Theorem J_log_old_block comp wi n l xi yi :
+  NoDup comp -> In n comp -> In xi (all_assts (lshape G n)) -> In yi (all_assts (lshape G l)) ->
+  (forall r, In r (rules_of G n) -> ok (rule_val o G E r xi)) ->
+  ok (sumS o (rules_of G n) (fun r => rule_val o G E r xi)) ->
+  exists v,
+    J_log_old_val o (J_log_old_contribs o dv G comp e wi) n l (xi ++ yi) = Some v
+    /\ mul o v (sumS o (rules_of G n) (fun r => rule_val o G E r xi))
+       = mul o (J_val o (J_contribs o G comp e wi) n l (xi ++ yi)) (E l yi).
+Proof.
+  intros Hnd Hn Hxi Hyi Hok Hokt.
+  apply (J_log_skeleton (rel (sumS o (rules_of G n) (fun r => rule_val o G E r xi)) (E l yi))
+                        (rel_nil _ _) (rel_app _ _) n l xi yi Hxi).
+  intros r s Hrin Hs El. apply rel_single.
+  pose proof (rules_of_wf G Hwf n r Hrin) as Hw.
+  assert (Hlhs : r_lhs r = n) by (apply in_rules_of in Hrin; tauto).
+  rewrite <- El in *.
+  apply (J_log_entry o Hr G E dv ok Hdv r s xi yi _ Hw Hs); trivial; [now rewrite Hlhs|now apply Hok].
+Qed.
+
+(** ** the code as it is now: a rule whose value is zero contributes nothing; what is left of
+    the guard is finiteness (every rule value and the total is zero or invertible) *)
+Hypothesis Hzsf : forall a b, add o a b = zero o -> a = zero o /\ b = zero o.
+Hypothesis Hnan : dv (zero o) (zero o) = None.
+
+Lemma sumS_zero_inv {A} (ls : list A) (f : A -> R) : sumS o ls f = zero o -> forall x, In x ls -> f x = zero o.
+Proof.
+  induction ls as [|a ls IH]; intros H x Hx; [destruct Hx|]. rewrite sumS_cons in H.
+  apply Hzsf in H. destruct H as [H1 H2]. destruct Hx as [<-|Hx]; [exact H1|now apply IH].
+Qed.
+
+Definition rel0 (F x : R) (g : list (option R)) (h : list R) : Prop :=
+  mul o (sum_list o (map (nan_to_zero o) g)) F = mul o (sum_list o h) x.
+Lemma sum_list_app l1 l2 : sum_list o (l1 ++ l2) = add o (sum_list o l1) (sum_list o l2).
+Proof. induction l1 as [|a l1 IH]; cbn [app sum_list]; [ring|]. rewrite IH. ring. Qed.
+Lemma rel0_nil F x : rel0 F x [] [].
+Proof. unfold rel0. cbn [map sum_list]. ring. Qed.
+Lemma rel0_app F x g1 g2 h1 h2 : rel0 F x g1 h1 -> rel0 F x g2 h2 -> rel0 F x (g1 ++ g2) (h1 ++ h2).
+Proof.
+  unfold rel0. intros H1 H2. rewrite map_app, !sum_list_app.
+  transitivity (add o (mul o (sum_list o (map (nan_to_zero o) g1)) F) (mul o (sum_list o (map (nan_to_zero o) g2)) F)); [ring|].
+  rewrite H1, H2. ring.
+Qed.
+
+Lemma J_val_map_nan (J : list (nat * nat * (list nat -> option R))) n l idx :
+  J_val o (map (fun c => (fst c, fun idx => nan_to_zero o (snd c idx))) J) n l idx
+  = sum_list o (map (nan_to_zero o) (map (fun c => snd c idx)
+        (filter (fun c => Nat.eqb (fst (fst c)) n && Nat.eqb (snd (fst c)) l) J))).
+Proof.
+  unfold J_val, sumS. induction J as [|c J IH]; [reflexivity|].
+  cbn [map filter fst snd]. destruct (Nat.eqb (fst (fst c)) n && Nat.eqb (snd (fst c)) l); cbn [map sum_list fst snd]; now rewrite IH.
+Qed.
+
+Theorem J_log_block comp wi n l xi yi :
+  NoDup comp -> In n comp -> In xi (all_assts (lshape G n)) -> In yi (all_assts (lshape G l)) ->
+  (forall r, In r (rules_of G n) -> rule_val o G E r xi = zero o \/ ok (rule_val o G E r xi)) ->
+  (sumS o (rules_of G n) (fun r => rule_val o G E r xi) = zero o \/ ok (sumS o (rules_of G n) (fun r => rule_val o G E r xi))) ->
+  mul o (J_val o (J_log_contribs o dv G comp e wi) n l (xi ++ yi)) (sumS o (rules_of G n) (fun r => rule_val o G E r xi))
+  = mul o (J_val o (J_contribs o G comp e wi) n l (xi ++ yi)) (E l yi).
+Proof.
+  intros Hnd Hn Hxi Hyi Hok Hokt. unfold J_log_contribs. rewrite J_val_map_nan.
+  set (F := sumS o (rules_of G n) (fun r => rule_val o G E r xi)).
+  change (rel0 F (E l yi)
+            (map (fun c => snd c (xi ++ yi)) (filter (fun c : nat * nat * (list nat -> option R) => Nat.eqb (fst (fst c)) n && Nat.eqb (snd (fst c)) l) (J_log_old_contribs o dv G comp e wi)))
+            (map (fun c => snd c (xi ++ yi)) (filter (fun c : nat * nat * (list nat -> R) => Nat.eqb (fst (fst c)) n && Nat.eqb (snd (fst c)) l) (J_contribs o G comp e wi)))).
+  apply (J_log_skeleton (rel0 F (E l yi)) (rel0_nil _ _) (rel0_app _ _) n l xi yi Hxi).
+  intros r s Hrin Hs El. fold F.
+  pose proof (rules_of_wf G Hwf n r Hrin) as Hw.
+  assert (Hlhs : r_lhs r = n) by (apply in_rules_of in Hrin; tauto).
+  assert (Hxi' : In xi (all_assts (lshape G (r_lhs r)))) by now rewrite Hlhs.
+  assert (Hyi' : In yi (all_assts (lshape G (fst (snd (fst s)))))) by now rewrite El.
+  unfold rel0. cbn [map sum_list].
+  assert (Hz : rule_val o G E r xi = zero o \/ (ok (rule_val o G E r xi) /\ ok F)).
+  { destruct (Hok r Hrin) as [H0|H1]; [now left|]. destruct Hokt as [HF|HF]; [|now right].
+    left. exact (sumS_zero_inv _ _ HF r Hrin). }
+  destruct Hz as [H0|[H1 H2]].
+  - (* a dead rule: 0/0 = nan -> 0, and the leave-one-out product times the edge value is 0 too *)
+    pose proof (full_rowsum o Hr G E r s xi Hw Hs Hxi') as Hrow. rewrite H0 in Hrow.
+    pose proof (sumS_zero_inv _ _ Hrow yi Hyi') as Hf0. cbn beta in Hf0.
+    assert (Hle : mul o (loo_prod o G E r s (xi ++ yi)) (E (fst (snd (fst s))) yi) = zero o)
+      by (rewrite <- (full_is_loo_times_edge o Hr G E r s xi yi Hw Hs Hxi' Hyi'); exact Hf0).
+    rewrite <- El, Hrow, Hf0, Hnan. cbn [omul nan_to_zero].
+    transitivity (zero o); [ring|].
+    transitivity (mul o (loo_prod o G E r s (xi ++ yi)) (E (fst (snd (fst s))) yi)); [now rewrite Hle|ring].
+  - rewrite <- El.
+    destruct (J_log_entry o Hr G E dv ok Hdv r s xi yi F Hw Hs Hxi' Hyi' H1 H2) as (v & Ev & Hv).
+    rewrite Ev. cbn [nan_to_zero]. transitivity (mul o v F); [ring|]. rewrite Hv. ring.
 Qed.
 End LogBlock.
